@@ -14,3 +14,887 @@ Proof.
   cbn [orb].
   destruct (Z.leb_spec 0x2000 c); destruct (Z.leb_spec c 0x200A); cbn [andb orb]; try reflexivity; lia.
 Qed.
+
+(* ------------------------------------------------------------------ *)
+(* codecs on ASCII / BMP-without-surrogates: all four are the identity *)
+
+Lemma bmp_of_ascii : forall u, ascii u -> bmp_clean u.
+Proof.
+  induction 1; constructor; auto. split; [lia|].
+  unfold is_sur. destruct (Z.leb_spec 0xD800 x); [lia|reflexivity].
+Qed.
+
+Lemma dec16_bmp : forall u, bmp_clean u -> dec16 u = u.
+Proof.
+  induction 1 as [|x u [Hx Hs] Hu IH]; [reflexivity|].
+  cbn [dec16].
+  assert (is_hi x = false) as ->.
+  { unfold is_hi, is_sur in *. destruct (Z.leb_spec 0xD800 x); destruct (Z.leb_spec x 0xDBFF); cbn [andb] in *; try reflexivity.
+    destruct (Z.leb_spec x 0xDFFF); [discriminate|lia]. }
+  assert (is_lo x = false) as ->.
+  { unfold is_lo, is_sur in *. destruct (Z.leb_spec 0xDC00 x); destruct (Z.leb_spec x 0xDFFF); cbn [andb] in *; try reflexivity.
+    destruct (Z.leb_spec 0xD800 x); [discriminate|lia]. }
+  now rewrite IH.
+Qed.
+
+Lemma valid_bmp : forall x, 0 <= x < 0x10000 -> is_sur x = false -> valid_rune x = true.
+Proof.
+  intros x Hx Hs. unfold valid_rune. rewrite Hs.
+  destruct (Z.leb_spec 0 x); [|lia]. destruct (Z.leb_spec x 0x10FFFF); [reflexivity|lia].
+Qed.
+
+Lemma enc16_bmp : forall u, bmp_clean u -> enc16 u = u.
+Proof.
+  induction 1 as [|x u [Hx Hs] Hu IH]; [reflexivity|].
+  unfold enc16 in *. cbn [flat_map]. rewrite IH. unfold enc16_1.
+  rewrite (valid_bmp x Hx Hs). destruct (Z.ltb_spec x 0x10000); [reflexivity|lia].
+Qed.
+
+Lemma enc8_ascii : forall u, ascii u -> enc8 u = u.
+Proof.
+  induction 1 as [|x u Hx Hu IH]; [reflexivity|].
+  unfold enc8 in *. cbn [flat_map]. rewrite IH. unfold enc8_1.
+  assert (valid_rune x = true) as ->.
+  { apply valid_bmp; [lia|]. unfold is_sur. destruct (Z.leb_spec 0xD800 x); [lia|reflexivity]. }
+  destruct (Z.ltb_spec x 0x80); [reflexivity|lia].
+Qed.
+
+Lemma dec8_ascii : forall u, ascii u -> dec8 u = u.
+Proof.
+  induction 1 as [|x u Hx Hu IH]; [reflexivity|].
+  cbn [dec8]. destruct (Z.ltb_spec x 0x80); [now rewrite IH|lia].
+Qed.
+
+Lemma Forall_firstn' : forall (P : Z -> Prop) n u, Forall P u -> Forall P (firstn n u).
+Proof. intros P n u H. revert n. induction H; destruct n; cbn [firstn]; constructor; auto. Qed.
+Lemma Forall_skipn' : forall (P : Z -> Prop) n u, Forall P u -> Forall P (skipn n u).
+Proof. intros P n u H. revert n. induction H; destruct n; cbn [skipn]; auto. Qed.
+Lemma ascii_firstn : forall n u, ascii u -> ascii (firstn n u).
+Proof. intros; now apply Forall_firstn'. Qed.
+Lemma ascii_skipn : forall n u, ascii u -> ascii (skipn n u).
+Proof. intros; now apply Forall_skipn'. Qed.
+Lemma bmp_firstn : forall n u, bmp_clean u -> bmp_clean (firstn n u).
+Proof. intros; now apply Forall_firstn'. Qed.
+Lemma bmp_skipn : forall n u, bmp_clean u -> bmp_clean (skipn n u).
+Proof. intros; now apply Forall_skipn'. Qed.
+Lemma bmp_app : forall a b, bmp_clean a -> bmp_clean b -> bmp_clean (a ++ b).
+Proof. intros. apply Forall_app; auto. Qed.
+Lemma bmp_rev : forall a, bmp_clean a -> bmp_clean (rev a).
+Proof. intros. now apply Forall_rev. Qed.
+Lemma bmp_sub : forall u a b, bmp_clean u -> bmp_clean (sub u a b).
+Proof. intros. unfold sub. now apply bmp_firstn, bmp_skipn. Qed.
+
+Lemma utf16Length_ascii : forall b, ascii b -> utf16Length b = zlen b.
+Proof.
+  intros b H. unfold utf16Length. rewrite (dec8_ascii b H), (enc16_bmp b (bmp_of_ascii b H)). reflexivity.
+Qed.
+
+(* ------------------------------------------------------------------ *)
+(* list / position helpers *)
+
+Lemma zlen_nil : forall A, @zlen A [] = 0.
+Proof. reflexivity. Qed.
+Lemma zlen_cons : forall A (a : A) l, zlen (a :: l) = zlen l + 1.
+Proof. intros. unfold zlen. cbn [length]. lia. Qed.
+Lemma zlen_nonneg : forall A (l : list A), 0 <= zlen l.
+Proof. intros. unfold zlen. lia. Qed.
+Lemma zlen_app : forall A (a b : list A), zlen (a ++ b) = zlen a + zlen b.
+Proof. intros. unfold zlen. rewrite app_length. lia. Qed.
+
+Lemma skipn_skipn' : forall A (x y : nat) (l : list A), skipn x (skipn y l) = skipn (y + x) l.
+Proof.
+  intros A x y. induction y; intro l; [reflexivity|].
+  destruct l; cbn [skipn plus]; [now destruct x|]. apply IHy.
+Qed.
+
+Lemma skipn_z_add : forall (s : str) a b, 0 <= a -> 0 <= b ->
+  skipn (Z.to_nat b) (skipn (Z.to_nat a) s) = skipn (Z.to_nat (a + b)) s.
+Proof.
+  intros. rewrite skipn_skipn'. f_equal. lia.
+Qed.
+
+Lemma skipn_succ : forall (a : Z) (s : str) k, 0 <= k ->
+  skipn (Z.to_nat (Z.succ k)) (a :: s) = skipn (Z.to_nat k) s.
+Proof. intros. rewrite Z2Nat.inj_succ by lia. reflexivity. Qed.
+
+Lemma clamp_range : forall p len, 0 <= len -> 0 <= clamp p len <= len.
+Proof.
+  intros p len H. unfold clamp. destruct p; cbn [ext_max ext_min]; lia.
+Qed.
+
+Lemma rel_index_range : forall p len, 0 <= len -> 0 <= rel_index p len <= len.
+Proof.
+  intros p len H. unfold rel_index. destruct p; try lia.
+  destruct (Z.ltb_spec z 0); lia.
+Qed.
+
+Lemma prefixb_length : forall t s, prefixb t s = true -> (length t <= length s)%nat.
+Proof.
+  induction t; intros s H; cbn [length]; [lia|].
+  destruct s; cbn [prefixb] in H; [discriminate|].
+  apply andb_prop in H as [_ H]. apply IHt in H. cbn [length]. lia.
+Qed.
+
+Lemma prefixb_true : forall t s, prefixb t s = true -> s = t ++ skipn (length t) s.
+Proof.
+  induction t; intros s H; [reflexivity|].
+  destruct s; cbn [prefixb] in H; [discriminate|].
+  apply andb_prop in H as [E H]. apply Z.eqb_eq in E. subst.
+  cbn [length skipn app]. f_equal. now apply IHt.
+Qed.
+
+Lemma prefixb_app : forall t r, prefixb t (t ++ r) = true.
+Proof. induction t; intros; cbn [prefixb app]; [reflexivity|]. now rewrite Z.eqb_refl, IHt. Qed.
+
+(* ------------------------------------------------------------------ *)
+(* 15.5.4.7: indexOf returns the least match at or after the clamped position *)
+
+Definition matches_at (t s : str) (j : Z) : bool := prefixb t (skipn (Z.to_nat j) s).
+
+Lemma find_from_some : forall t s k, find_from t s = Some k ->
+  0 <= k <= zlen s /\ matches_at t s k = true /\ forall j, 0 <= j < k -> matches_at t s j = false.
+Proof.
+  unfold matches_at. induction s as [|a s IH]; intros k H.
+  - cbn [find_from] in H. destruct (prefixb t []) eqn:E; inversion H; subst.
+    rewrite zlen_nil. repeat split; try lia. exact E.
+  - cbn [find_from] in H. destruct (prefixb t (a :: s)) eqn:E.
+    + inversion H; subst. rewrite zlen_cons. pose proof (zlen_nonneg _ s). repeat split; try lia. exact E.
+    + destruct (find_from t s) as [z|] eqn:F; cbn [option_map] in H; inversion H; subst.
+      destruct (IH z eq_refl) as (R & M & L). rewrite zlen_cons. repeat split; try lia.
+      * rewrite skipn_succ by lia. exact M.
+      * intros j Hj. destruct (Z.eq_dec j 0) as [->|]; [exact E|].
+        replace j with (Z.succ (j - 1)) by lia. rewrite skipn_succ by lia. apply L. lia.
+Qed.
+
+Lemma find_from_none : forall t s, find_from t s = None ->
+  forall j, 0 <= j <= zlen s -> matches_at t s j = false.
+Proof.
+  unfold matches_at. induction s as [|a s IH]; intros H j Hj.
+  - cbn [find_from] in H. destruct (prefixb t []) eqn:E; [discriminate|].
+    rewrite zlen_nil in Hj. replace j with 0 by lia. exact E.
+  - cbn [find_from] in H. destruct (prefixb t (a :: s)) eqn:E; [discriminate|].
+    destruct (find_from t s) eqn:F; [discriminate|].
+    rewrite zlen_cons in Hj. destruct (Z.eq_dec j 0) as [->|]; [exact E|].
+    replace j with (Z.succ (j - 1)) by lia. rewrite skipn_succ by lia. apply IH; [reflexivity|lia].
+Qed.
+
+Lemma matches_shift : forall t s a j, 0 <= a -> 0 <= j ->
+  matches_at t (skipn (Z.to_nat a) s) j = matches_at t s (a + j).
+Proof. intros. unfold matches_at. now rewrite skipn_z_add. Qed.
+
+Lemma zlen_skipn : forall (s : str) a, 0 <= a <= zlen s -> zlen (skipn (Z.to_nat a) s) = zlen s - a.
+Proof. intros s a H. unfold zlen in *. rewrite skipn_length. lia. Qed.
+
+Theorem indexOf_least : forall s t p,
+  let st := clamp p (zlen s) in
+  let k := indexOf s t p in
+  (k = -1 /\ forall j, st <= j <= zlen s -> matches_at t s j = false) \/
+  (st <= k <= zlen s /\ matches_at t s k = true /\ forall j, st <= j < k -> matches_at t s j = false).
+Proof.
+  intros s t p st k. pose proof (clamp_range p (zlen s) (zlen_nonneg _ s)) as R. fold st in R.
+  unfold k, indexOf. fold st.
+  destruct (find_from t (skipn (Z.to_nat st) s)) as [z|] eqn:F.
+  - right. destruct (find_from_some _ _ _ F) as (Rz & M & L).
+    rewrite zlen_skipn in Rz by lia. rewrite matches_shift in M by lia.
+    repeat split; try lia; [exact M|].
+    intros j Hj. specialize (L (j - st)). rewrite matches_shift in L by lia.
+    replace (st + (j - st)) with j in L by lia. apply L. lia.
+  - left. split; [reflexivity|]. intros j Hj.
+    pose proof (find_from_none _ _ F (j - st)) as L. rewrite zlen_skipn in L by lia.
+    rewrite matches_shift in L by lia. replace (st + (j - st)) with j in L by lia. apply L. lia.
+Qed.
+
+(* ------------------------------------------------------------------ *)
+(* 15.5.4.8: lastIndexOf returns the greatest match at or before the clamped position *)
+
+Lemma find_last_none : forall t s, find_last t s = None ->
+  forall j, 0 <= j <= zlen s -> matches_at t s j = false.
+Proof.
+  unfold matches_at. induction s as [|a s IH]; intros H j Hj.
+  - cbn [find_last] in H. destruct (prefixb t []) eqn:E; [discriminate|].
+    rewrite zlen_nil in Hj. replace j with 0 by lia. exact E.
+  - cbn [find_last] in H. destruct (find_last t s) eqn:F; [discriminate|].
+    destruct (prefixb t (a :: s)) eqn:E; [discriminate|].
+    rewrite zlen_cons in Hj. destruct (Z.eq_dec j 0) as [->|]; [exact E|].
+    replace j with (Z.succ (j - 1)) by lia. rewrite skipn_succ by lia. apply IH; [reflexivity|lia].
+Qed.
+
+Lemma find_last_some : forall t s k, find_last t s = Some k ->
+  0 <= k <= zlen s /\ matches_at t s k = true /\ forall j, k < j <= zlen s -> matches_at t s j = false.
+Proof.
+  unfold matches_at. induction s as [|a s IH]; intros k H.
+  - cbn [find_last] in H. destruct (prefixb t []) eqn:E; inversion H; subst.
+    rewrite zlen_nil. repeat split; try lia. exact E.
+  - cbn [find_last] in H. rewrite zlen_cons. pose proof (zlen_nonneg _ s).
+    destruct (find_last t s) as [z|] eqn:F.
+    + inversion H; subst. destruct (IH z eq_refl) as (R & M & L). repeat split; try lia.
+      * replace (z + 1) with (Z.succ z) by lia. rewrite skipn_succ by lia. exact M.
+      * intros j Hj. replace j with (Z.succ (j - 1)) by lia. rewrite skipn_succ by lia. apply L. lia.
+    + destruct (prefixb t (a :: s)) eqn:E; inversion H; subst. repeat split; try lia; [exact E|].
+      intros j Hj. replace j with (Z.succ (j - 1)) by lia. rewrite skipn_succ by lia.
+      apply (find_last_none _ _ F). lia.
+Qed.
+
+Lemma prefixb_firstn : forall t s n, (length t <= n)%nat -> prefixb t (firstn n s) = prefixb t s.
+Proof.
+  induction t; intros s n H; [reflexivity|].
+  cbn [length] in H. destruct n; [lia|]. destruct s; [reflexivity|].
+  cbn [firstn prefixb]. rewrite IHt by lia. reflexivity.
+Qed.
+
+Lemma prefixb_short : forall t s, (length s < length t)%nat -> prefixb t s = false.
+Proof.
+  intros t s H. destruct (prefixb t s) eqn:E; [|reflexivity]. apply prefixb_length in E. lia.
+Qed.
+
+(* a match inside the truncated string is a match of the whole string, and conversely
+   as long as the match ends inside the truncation *)
+Lemma matches_firstn : forall t s n j, 0 <= j -> j + zlen t <= n ->
+  matches_at t (firstn (Z.to_nat n) s) j = matches_at t s j.
+Proof.
+  intros t s n j Hj Hn. unfold matches_at. rewrite skipn_firstn_comm.
+  apply prefixb_firstn. unfold zlen in Hn. lia.
+Qed.
+
+Theorem lastIndexOf_greatest : forall s t p,
+  let st := clamp p (zlen s) in
+  let k := lastIndexOf s t p in
+  (k = -1 /\ forall j, 0 <= j <= st -> matches_at t s j = false) \/
+  (0 <= k <= st /\ matches_at t s k = true /\ forall j, k < j <= st -> matches_at t s j = false).
+Proof.
+  intros s t p st k. pose proof (clamp_range p (zlen s) (zlen_nonneg _ s)) as R. fold st in R.
+  pose proof (zlen_nonneg _ t) as Ht.
+  unfold k, lastIndexOf. fold st.
+  set (n := st + zlen t).
+  assert (Hlen : zlen (firstn (Z.to_nat n) s) = Z.min n (zlen s)).
+  { unfold zlen. rewrite firstn_length. unfold zlen in *. lia. }
+  (* positions j <= st whose match would run past the end of s do not match *)
+  assert (Hpast : forall j, 0 <= j <= st -> zlen s < j + zlen t -> matches_at t s j = false).
+  { intros j Hj Hp. unfold matches_at. apply prefixb_short. rewrite skipn_length. unfold zlen in *. lia. }
+  destruct (find_last t (firstn (Z.to_nat n) s)) as [z|] eqn:F.
+  - right. destruct (find_last_some _ _ _ F) as (Rz & M & L). rewrite Hlen in Rz, L.
+    assert (Hz : z + zlen t <= Z.min n (zlen s)).
+    { unfold matches_at in M. apply prefixb_length in M. rewrite skipn_length, firstn_length in M.
+      unfold zlen in *. lia. }
+    rewrite matches_firstn in M by lia.
+    repeat split; try lia; [exact M|].
+    intros j Hj. destruct (Z_le_gt_dec (j + zlen t) (zlen s)).
+    + rewrite <- (matches_firstn t s n j) by lia. apply L. lia.
+    + apply Hpast; lia.
+  - left. split; [reflexivity|]. intros j Hj.
+    destruct (Z_le_gt_dec (j + zlen t) (zlen s)).
+    + rewrite <- (matches_firstn t s n j) by lia. apply (find_last_none _ _ F). rewrite Hlen. lia.
+    + apply Hpast; lia.
+Qed.
+
+(* ------------------------------------------------------------------ *)
+(* 15.5.4.13 / 15.5.4.15 / B.2.3: slice, substring, substr *)
+
+Lemma sub_empty : forall s a, sub s a a = [].
+Proof. intros. unfold sub. now rewrite Z.sub_diag. Qed.
+
+Lemma sub_length : forall s a b, 0 <= a <= b -> b <= zlen s -> zlen (sub s a b) = b - a.
+Proof.
+  intros s a b H1 H2. unfold sub, zlen in *. rewrite firstn_length, skipn_length. lia.
+Qed.
+
+Theorem substring_sym : forall s a b, substring s a (Some b) = substring s b (Some a).
+Proof. intros. unfold substring. now rewrite Z.min_comm, Z.max_comm. Qed.
+
+Theorem slice_is_substring : forall s a b, 0 <= a <= b ->
+  slice s (Fin a) (Some (Fin b)) = substring s (Fin a) (Some (Fin b)).
+Proof.
+  intros s a b H. pose proof (zlen_nonneg _ s).
+  unfold slice, substring, rel_index, clamp. cbn [ext_max ext_min].
+  destruct (Z.ltb_spec a 0); [lia|]. destruct (Z.ltb_spec b 0); [lia|].
+  f_equal; lia.
+Qed.
+
+Theorem substr_is_slice : forall s a n, 0 <= a -> 0 <= n ->
+  substr s (Fin a) (Some (Fin n)) = slice s (Fin a) (Some (Fin (a + n))).
+Proof.
+  intros s a n Ha Hn. pose proof (zlen_nonneg _ s).
+  unfold substr, slice, rel_index. cbn [ext_max ext_min].
+  destruct (Z.ltb_spec a 0); [lia|]. destruct (Z.ltb_spec (a + n) 0); [lia|].
+  destruct (Z.leb_spec (Z.min (Z.max n 0) (zlen s - Z.min a (zlen s))) 0).
+  - replace (Z.max (Z.min (a + n) (zlen s) - Z.min a (zlen s)) 0) with 0 by lia.
+    rewrite Z.add_0_r. now rewrite sub_empty.
+  - f_equal. lia.
+Qed.
+
+(* a negative start counts from the end in both, and both run to the end *)
+Theorem slice_tail_is_substr_tail : forall s k, slice s (Fin k) None = substr s (Fin k) None.
+Proof.
+  intros s k. pose proof (zlen_nonneg _ s) as H.
+  pose proof (rel_index_range (Fin k) (zlen s) H) as R.
+  unfold slice, substr. cbn [ext_max ext_min].
+  set (from := rel_index (Fin k) (zlen s)) in *.
+  destruct (Z.leb_spec (zlen s - from) 0).
+  - replace (Z.max (zlen s - from) 0) with 0 by lia. rewrite Z.add_0_r. apply sub_empty.
+  - f_equal. lia.
+Qed.
+
+Theorem slice_length : forall s st en,
+  let len := zlen s in
+  let from := rel_index st len in
+  let to := match en with None => len | Some e => rel_index e len end in
+  zlen (slice s st en) = Z.max (to - from) 0.
+Proof.
+  intros s st en len from to. pose proof (zlen_nonneg _ s) as H.
+  pose proof (rel_index_range st (zlen s) H).
+  assert (0 <= to <= len) by (unfold to; destruct en; [apply rel_index_range; exact H | unfold len; lia]).
+  unfold slice. fold len from to. rewrite sub_length; unfold len in *; fold from; lia.
+Qed.
+
+(* ------------------------------------------------------------------ *)
+(* 15.5.4.14: joining the pieces of split (no limit reached) with the separator gives the string back *)
+
+Fixpoint join (sep : str) (l : list str) : str :=
+  match l with
+  | [] => []
+  | x :: l' => match l' with [] => x | _ => x ++ sep ++ join sep l' end
+  end.
+
+(* acc holds the pieces found so far, newest first *)
+Fixpoint pre (sep : str) (acc : list str) : str :=
+  match acc with [] => [] | x :: a => pre sep a ++ x ++ sep end.
+
+Lemma join_snoc : forall sep l x, l <> [] -> join sep (l ++ [x]) = join sep l ++ sep ++ x.
+Proof.
+  induction l as [|y l IH]; intros x H; [congruence|].
+  destruct l as [|z l].
+  - reflexivity.
+  - change (join sep ((y :: z :: l) ++ [x])) with (y ++ sep ++ join sep ((z :: l) ++ [x])).
+    rewrite IH by discriminate.
+    change (join sep (y :: z :: l)) with (y ++ sep ++ join sep (z :: l)).
+    now rewrite <- !app_assoc.
+Qed.
+
+Lemma join_rev : forall sep acc x, join sep (rev (x :: acc)) = pre sep acc ++ x.
+Proof.
+  induction acc as [|a acc IH]; intro x; [reflexivity|].
+  change (rev (x :: a :: acc)) with (rev (a :: acc) ++ [x]).
+  rewrite join_snoc.
+  - rewrite IH. cbn [pre]. now rewrite <- !app_assoc.
+  - cbn [rev]. intro E. apply app_eq_nil in E as [_ E]. discriminate.
+Qed.
+
+Lemma sub_to_end : forall s p, 0 <= p -> sub s p (zlen s) = skipn (Z.to_nat p) s.
+Proof.
+  intros s p Hp. unfold sub. apply firstn_all2. rewrite skipn_length. unfold zlen. lia.
+Qed.
+
+Lemma split_loop_join : forall fuel s r p q lim acc,
+  0 <= p <= q -> q <= zlen s -> pre r acc ++ skipn (Z.to_nat p) s = s ->
+  zlen acc <= p -> zlen s + 1 < lim ->
+  join r (split_loop fuel s r p q lim acc) = s.
+Proof.
+  induction fuel as [|f IH]; intros s r p q lim acc Hpq Hq Inv Hacc Hlim.
+  - cbn [split_loop]. rewrite join_rev, sub_to_end by lia. exact Inv.
+  - cbn [split_loop]. destruct (Z.leb_spec (zlen s) q).
+    + rewrite join_rev, sub_to_end by lia. exact Inv.
+    + unfold split_match. destruct (prefixb r (skipn (Z.to_nat q) s)) eqn:M.
+      * destruct (Z.eqb_spec (q + zlen r) p).
+        -- apply IH; auto; lia.
+        -- pose proof (zlen_nonneg _ r) as Hr.
+           assert (Hrl : q + zlen r <= zlen s).
+           { apply prefixb_length in M. rewrite skipn_length in M. unfold zlen in *. lia. }
+           rewrite zlen_cons. destruct (Z.eqb_spec (zlen acc + 1) lim); [lia|].
+           apply IH; try lia.
+           ++ assert (E : skipn (Z.to_nat p) s = sub s p q ++ r ++ skipn (Z.to_nat (q + zlen r)) s).
+              { unfold sub.
+                rewrite <- (firstn_skipn (Z.to_nat (q - p)) (skipn (Z.to_nat p) s)) at 1.
+                f_equal. rewrite skipn_z_add by lia. replace (p + (q - p)) with q by lia.
+                rewrite (prefixb_true _ _ M) at 1. f_equal.
+                rewrite skipn_skipn'. f_equal. unfold zlen. lia. }
+              cbn [pre]. rewrite <- !app_assoc. rewrite <- E. exact Inv.
+           ++ rewrite zlen_cons. lia.
+      * apply IH; auto; lia.
+Qed.
+
+Theorem split_join : forall s sep lim, zlen s + 1 < lim ->
+  join sep (split s (Some sep) lim) = s.
+Proof.
+  intros s sep lim H. pose proof (zlen_nonneg _ s). unfold split.
+  destruct (Z.eqb_spec lim 0); [lia|].
+  destruct s as [|a s].
+  - destruct (split_match [] 0 sep); reflexivity.
+  - apply split_loop_join; try lia; reflexivity.
+Qed.
+
+(* ------------------------------------------------------------------ *)
+(* otto's saturated int64 positions against ES5's extended integers *)
+
+Definition sat64 (p : ext) : Z :=
+  match p with
+  | NInf => min64
+  | PInf => max64
+  | Fin z => if 2 ^ 63 <=? z then max64 else if z <=? - 2 ^ 63 then min64 else z
+  end.
+
+Lemma number_sat : forall b, snd (number_bits b) = sat64 (to_integer_bits b).
+Proof.
+  intro b. unfold number_bits, to_integer_bits. destruct (decode b) as [|neg|neg m e].
+  - reflexivity.
+  - destruct neg; reflexivity.
+  - cbn [sat64]. destruct (2 ^ 63 <=? _); [reflexivity|]. destruct (_ <=? - 2 ^ 63); reflexivity.
+Qed.
+
+Lemma int64_of_sat : forall a, int64_of a = option_map sat64 (to_integer a).
+Proof.
+  intro a. unfold int64_of, number, to_integer. destruct (to_number a); cbn [option_map]; [|reflexivity].
+  now rewrite number_sat.
+Qed.
+
+Ltac big := unfold min64, max64 in *; change (2 ^ 63) with 9223372036854775808 in *;
+            change (2 ^ 62) with 4611686018427387904 in *.
+
+Ltac split_ifs := repeat match goal with
+  | |- context [if ?a <? ?b then _ else _] => destruct (Z.ltb_spec a b); try lia
+  | |- context [if ?a <=? ?b then _ else _] => destruct (Z.leb_spec a b); try lia
+  end.
+
+Lemma range_index_rel : forall p len, 0 <= len < 2 ^ 62 ->
+  range_index (sat64 p) len false = rel_index p len.
+Proof.
+  intros p len H. unfold sat64. big. destruct p as [|z|];
+    [| destruct (Z.leb_spec 9223372036854775808 z); [| destruct (Z.leb_spec z (Z.opp 9223372036854775808))] |];
+    unfold range_index, rel_index; split_ifs.
+Qed.
+
+Lemma range_index_clamp : forall p len, 0 <= len < 2 ^ 62 ->
+  range_index (sat64 p) len true = clamp p len.
+Proof.
+  intros p len H. unfold sat64. big. destruct p as [|z|];
+    [| destruct (Z.leb_spec 9223372036854775808 z); [| destruct (Z.leb_spec z (Z.opp 9223372036854775808))] |];
+    unfold range_index, clamp; cbn [ext_max ext_min]; split_ifs.
+Qed.
+
+Definition idx (negz : bool) (p : ext) (len : Z) : Z := if negz then clamp p len else rel_index p len.
+
+Lemma arg_at_1_single : forall args, length args = 1%nat -> arg_at args 1 = AUndef.
+Proof. intros [|a [|b l]] H; try discriminate; reflexivity. Qed.
+
+Lemma range_start_end_spec : forall args size negz, 0 <= size < 2 ^ 62 ->
+  range_start_end args size negz =
+  match to_integer (arg_at args 0), opt_ext args 1 with
+  | Some st, Some en => Some (idx negz st size, match en with None => size | Some e => idx negz e size end)
+  | _, _ => None
+  end.
+Proof.
+  intros args size negz H. unfold range_start_end. rewrite int64_of_sat.
+  destruct (to_integer (arg_at args 0)) as [st|]; cbn [option_map]; [|reflexivity].
+  assert (I : forall p, range_index (sat64 p) size negz = idx negz p size).
+  { intro p. unfold idx. destruct negz; [apply range_index_clamp | apply range_index_rel]; exact H. }
+  rewrite I. unfold opt_ext.
+  destruct (Nat.eqb_spec (length args) 1) as [L|L].
+  - now rewrite (arg_at_1_single _ L).
+  - destruct (arg_at args 1) eqn:A; try reflexivity; rewrite int64_of_sat;
+      (destruct (to_integer _); cbn [option_map]; [now rewrite I|reflexivity]).
+Qed.
+
+(* ------------------------------------------------------------------ *)
+(* refinement: on strings without surrogate units otto's rune-indexed slice /
+   substring / substr are the ES5 functions, for every argument list *)
+
+Lemma rsub_enc16 : forall u a b, bmp_clean u -> enc16 (rsub u a b) = sub u a b.
+Proof. intros. unfold rsub. apply enc16_bmp. now apply bmp_sub. Qed.
+
+Theorem slice_refines_bmp : forall u args, bmp_clean u -> zlen u < 2 ^ 62 ->
+  m_slice (dec16 u) args =
+  match to_integer (arg_at args 0), opt_ext args 1 with
+  | Some st, Some en => Some (VStr (slice u st en))
+  | _, _ => None
+  end.
+Proof.
+  intros u args B L. rewrite (dec16_bmp u B). unfold m_slice.
+  rewrite range_start_end_spec by (pose proof (zlen_nonneg _ u); lia).
+  destruct (to_integer (arg_at args 0)) as [st|]; [|reflexivity].
+  destruct (opt_ext args 1) as [en|]; [|reflexivity].
+  cbn [idx]. unfold slice. f_equal. f_equal.
+  set (from := rel_index st (zlen u)).
+  set (to := match en with None => zlen u | Some e => rel_index e (zlen u) end).
+  destruct (Z.leb_spec (to - from) 0).
+  - replace (Z.max (to - from) 0) with 0 by lia. rewrite Z.add_0_r, sub_empty. reflexivity.
+  - rewrite rsub_enc16 by exact B. f_equal. lia.
+Qed.
+
+Theorem substring_refines_bmp : forall u args, bmp_clean u -> zlen u < 2 ^ 62 ->
+  m_substring (dec16 u) args =
+  match to_integer (arg_at args 0), opt_ext args 1 with
+  | Some st, Some en => Some (VStr (substring u st en))
+  | _, _ => None
+  end.
+Proof.
+  intros u args B L. rewrite (dec16_bmp u B). unfold m_substring.
+  rewrite range_start_end_spec by (pose proof (zlen_nonneg _ u); lia).
+  destruct (to_integer (arg_at args 0)) as [st|]; [|reflexivity].
+  destruct (opt_ext args 1) as [en|]; [|reflexivity].
+  cbn [idx]. unfold substring.
+  set (a := clamp st (zlen u)).
+  set (b := match en with None => zlen u | Some e => clamp e (zlen u) end).
+  destruct (Z.ltb_spec b a); rewrite rsub_enc16 by exact B; do 3 f_equal; lia.
+Qed.
+
+(* substr: equal as long as start + length does not wrap around int64 *)
+Definition substr_len_ok (args : list arg) : Prop :=
+  match opt_ext args 1 with
+  | Some (Some (Fin z)) => z < 2 ^ 62
+  | Some (Some PInf) => False
+  | _ => True
+  end.
+
+Lemma wrap64_id : forall x, - 2 ^ 63 <= x < 2 ^ 63 -> wrap64 x = x.
+Proof.
+  intros x H. unfold wrap64. change (2 ^ 64) with (2 * 2 ^ 63). big.
+  rewrite Z.mod_small by lia. lia.
+Qed.
+
+Theorem substr_refines_bmp : forall u args, bmp_clean u -> zlen u < 2 ^ 62 -> substr_len_ok args ->
+  m_substr (dec16 u) args =
+  match to_integer (arg_at args 0), opt_ext args 1 with
+  | Some st, Some ln => Some (VStr (substr u st ln))
+  | _, _ => None
+  end.
+Proof.
+  intros u args B L G. rewrite (dec16_bmp u B). unfold m_substr.
+  pose proof (zlen_nonneg _ u) as Hn.
+  rewrite int64_of_sat.
+  destruct (to_integer (arg_at args 0)) as [st|]; cbn [option_map]; [|reflexivity].
+  rewrite range_index_rel by lia.
+  pose proof (rel_index_range st (zlen u) Hn) as R.
+  set (from := rel_index st (zlen u)) in *.
+  (* the length argument *)
+  assert (E : (if (length args =? 1)%nat then Some (zlen u)
+               else match arg_at args 1 with AUndef => Some (zlen u) | a => int64_of a end) =
+              option_map (fun o => match o with None => zlen u | Some l => sat64 l end) (opt_ext args 1)).
+  { unfold opt_ext. destruct (Nat.eqb_spec (length args) 1) as [L1|L1].
+    - now rewrite (arg_at_1_single _ L1).
+    - destruct (arg_at args 1); try reflexivity; rewrite int64_of_sat;
+        (destruct (to_integer _); reflexivity). }
+  rewrite E. clear E. unfold substr_len_ok in G.
+  destruct (opt_ext args 1) as [ln|]; cbn [option_map]; [|reflexivity].
+  unfold substr. fold from.
+  destruct ln as [[|z|]|]; cbn [ext_max ext_min sat64]; try contradiction.
+  - (* -Infinity *) big. split_ifs; reflexivity.
+  - (* finite *)
+    big. destruct (Z.leb_spec 9223372036854775808 z); [lia|].
+    destruct (Z.leb_spec z (Z.opp 9223372036854775808)).
+    + split_ifs; reflexivity.
+    + destruct (Z.leb_spec (zlen u) from).
+      * split_ifs; reflexivity.
+      * destruct (Z.leb_spec z 0); [split_ifs; reflexivity|].
+        rewrite wrap64_id by (big; lia).
+        split_ifs; rewrite rsub_enc16 by exact B; do 3 f_equal; lia.
+  - (* absent / undefined: up to the end *)
+    destruct (Z.leb_spec (zlen u) from).
+    + split_ifs; reflexivity.
+    + destruct (Z.leb_spec (zlen u) 0); [lia|].
+      rewrite wrap64_id by (big; lia).
+      split_ifs; rewrite rsub_enc16 by exact B; do 3 f_equal; lia.
+Qed.
+
+(* ------------------------------------------------------------------ *)
+(* indexOf on ASCII strings: bytes = units, so otto's byte arithmetic is exact,
+   for every position argument *)
+
+Lemma zlen_firstn : forall (s : str) k, 0 <= k <= zlen s -> zlen (firstn (Z.to_nat k) s) = k.
+Proof. intros s k H. unfold zlen in *. rewrite firstn_length. lia. Qed.
+
+Lemma indexRune_ascii : forall v t, ascii v ->
+  indexRune v t = match find_from t v with Some k => k | None => -1 end.
+Proof.
+  intros v t A. unfold indexRune. destruct (find_from t v) as [k|] eqn:F; [|reflexivity].
+  apply find_from_some in F as (R & _ & _).
+  rewrite utf16Length_ascii by now apply ascii_firstn. now apply zlen_firstn.
+Qed.
+
+Lemma find_from_nil_hay : forall t, find_from t [] = if is_nil t then Some 0 else None.
+Proof. destruct t; reflexivity. Qed.
+
+Lemma skipn_all_z : forall (s : str), skipn (Z.to_nat (zlen s)) s = [].
+Proof. intro s. unfold zlen. rewrite Nat2Z.id. apply skipn_all. Qed.
+
+Theorem indexOf_refines_ascii : forall s t args, ascii s -> ascii t ->
+  m_indexOf s t (length args) (arg_at args 1) =
+  option_map (fun p => VInt (indexOf s t p)) (to_integer (arg_at args 1)).
+Proof.
+  intros s t args As At. unfold m_indexOf. cbv zeta. rewrite (enc8_ascii s As), (enc8_ascii t At).
+  pose proof (zlen_nonneg _ s) as Hn.
+  assert (From : forall st, 0 <= st <= zlen s ->
+            VInt (if 0 <=? indexRune (skipn (Z.to_nat st) s) t
+                  then indexRune (skipn (Z.to_nat st) s) t + st else indexRune (skipn (Z.to_nat st) s) t) =
+            VInt (match find_from t (skipn (Z.to_nat st) s) with Some k => st + k | None => -1 end)).
+  { intros st Hst. rewrite indexRune_ascii by now apply ascii_skipn.
+    destruct (find_from t (skipn (Z.to_nat st) s)) as [k|] eqn:F.
+    - apply find_from_some in F as (R & _ & _). destruct (Z.leb_spec 0 k); [|lia]. f_equal; lia.
+    - reflexivity. }
+  assert (End_ : (if is_nil t then VInt (zlen s) else VInt (-1)) =
+                 VInt (match find_from t (skipn (Z.to_nat (zlen s)) s) with Some k => zlen s + k | None => -1 end)).
+  { rewrite skipn_all_z, find_from_nil_hay. destruct (is_nil t); [f_equal; lia|reflexivity]. }
+  destruct (Nat.ltb_spec (length args) 2) as [L2|L2].
+  - assert (arg_at args 1 = AUndef) as ->.
+    { unfold arg_at. destruct args as [|a [|b l]]; try reflexivity. cbn [length] in L2. lia. }
+    change (to_integer AUndef) with (Some (Fin 0)). cbn [option_map]. unfold indexOf.
+    change (clamp (Fin 0) (zlen s)) with (Z.min (Z.max 0 0) (zlen s)).
+    replace (Z.min (Z.max 0 0) (zlen s)) with 0 by lia.
+    rewrite indexRune_ascii by exact As. change (skipn (Z.to_nat 0) s) with s.
+    destruct (find_from t s); reflexivity.
+  - destruct (to_integer (arg_at args 1)) as [p|]; cbn [option_map]; [|reflexivity].
+    f_equal. unfold indexOf, clamp. destruct p as [|z|]; cbn [ext_max ext_min].
+    + rewrite (From 0) by lia. replace (Z.min 0 (zlen s)) with 0 by lia. reflexivity.
+    + destruct (Z.ltb_spec z 0).
+      * rewrite (From 0) by lia. replace (Z.min (Z.max z 0) (zlen s)) with 0 by lia. reflexivity.
+      * destruct (Z.leb_spec (zlen s) z).
+        -- rewrite End_. replace (Z.min (Z.max z 0) (zlen s)) with (zlen s) by lia. reflexivity.
+        -- rewrite (From z) by lia. replace (Z.min (Z.max z 0) (zlen s)) with z by lia. reflexivity.
+    + rewrite End_. reflexivity.
+Qed.
+
+(* ------------------------------------------------------------------ *)
+(* charAt / charCodeAt on a String object without surrogates and without U+FFFD *)
+
+Lemma unit_at_in : forall u z, 0 <= z < zlen u -> In (unit_at u z) u.
+Proof. intros u z H. unfold unit_at. apply nth_In. unfold zlen in H. lia. Qed.
+
+Theorem charAt_refines_bmp : forall u a code, bmp_clean u -> ~ In 0xFFFD u -> zlen u < 2 ^ 62 ->
+  option_map (fun i => m_charAt (TStringObj (dec16 u)) i code) (int64_of a) =
+  option_map (fun p => if code then charCodeAt u p else VStr (charAt u p)) (to_integer a).
+Proof.
+  intros u a code B NF L. rewrite int64_of_sat. pose proof (zlen_nonneg _ u) as Hn.
+  destruct (to_integer a) as [p|]; cbn [option_map]; [|reflexivity]. f_equal.
+  unfold m_charAt, string_at. rewrite (dec16_bmp u B), (enc16_bmp u B).
+  assert (Out : forall x, (x < 0 \/ zlen u <= x) -> (0 <=? x) && (x <? zlen u) = false).
+  { intros x Hx. destruct (Z.leb_spec 0 x); destruct (Z.ltb_spec x (zlen u)); cbn [andb]; try reflexivity; lia. }
+  destruct p as [|z|]; cbn [sat64].
+  - rewrite Out by (big; lia). destruct code; reflexivity.
+  - unfold charCodeAt, charAt. big.
+    destruct (Z.leb_spec 9223372036854775808 z).
+    + rewrite !Out by lia. destruct code; reflexivity.
+    + destruct (Z.leb_spec z (Z.opp 9223372036854775808)).
+      * rewrite !Out by lia. destruct code; reflexivity.
+      * destruct (Z.leb_spec 0 z); destruct (Z.ltb_spec z (zlen u)); cbn [andb]; try (destruct code; reflexivity).
+        pose proof (unit_at_in u z ltac:(lia)) as I.
+        destruct (Z.eqb_spec (unit_at u z) 0xFFFD) as [E|E]; [rewrite E in I; contradiction|].
+        destruct code; [reflexivity|]. f_equal. unfold rune_string.
+        unfold bmp_clean in B. rewrite Forall_forall in B. destruct (B _ I) as [Hr Hs].
+        rewrite (valid_bmp _ Hr Hs). apply enc16_bmp. constructor; [split; assumption|constructor].
+  - rewrite Out by (big; lia). destruct code; reflexivity.
+Qed.
+
+(* ------------------------------------------------------------------ *)
+(* trim *)
+
+Lemma drop_while_ext : forall f g s, (forall c, f c = g c) -> drop_while f s = drop_while g s.
+Proof. intros f g s H. induction s as [|c s IH]; [reflexivity|]. cbn [drop_while]. now rewrite H, IH. Qed.
+
+Lemma Forall_drop_while : forall (P : Z -> Prop) f s, Forall P s -> Forall P (drop_while f s).
+Proof.
+  intros P f s H. induction H as [|c s Hc Hs IH]; [constructor|].
+  cbn [drop_while]. destruct (f c); [exact IH | now constructor].
+Qed.
+
+Theorem m_trim_is_trim : forall s, m_trim s = trim s.
+Proof.
+  intro s. unfold m_trim, trim.
+  now rewrite !(drop_while_ext in_trim_set is_trim _ trim_set_exact).
+Qed.
+
+Theorem trim_refines_bmp : forall u, bmp_clean u -> enc16 (m_trim (dec16 u)) = trim u.
+Proof.
+  intros u B. rewrite (dec16_bmp u B), m_trim_is_trim. apply enc16_bmp.
+  unfold trim. apply bmp_rev, Forall_drop_while, bmp_rev, Forall_drop_while, B.
+Qed.
+
+(* trim removes exactly the leading and trailing members of the set: nothing is left at either end *)
+Lemma drop_while_head : forall f s c r, drop_while f s = c :: r -> f c = false.
+Proof.
+  induction s as [|x s IH]; intros c r H; [discriminate|].
+  cbn [drop_while] in H. destruct (f x) eqn:E; [eauto|]. now inversion H; subst.
+Qed.
+
+Theorem trim_ends : forall s c r, (trim s = c :: r -> is_trim c = false) /\
+                                  (rev (trim s) = c :: r -> is_trim c = false).
+Proof.
+  intros s c r. unfold trim. split; intro H.
+  - set (m := drop_while is_trim s) in *.
+    (* the first element of trim s is the first element of m, whenever trim s is non-empty *)
+    assert (Hm : forall m, rev (drop_while is_trim (rev m)) = c :: r ->
+                 forall x m', m = x :: m' -> x = c).
+    { clear. intros m H x m' ->. cbn [rev] in H.
+      assert (D : forall a b, drop_while is_trim (a ++ [b]) = [] \/ exists a', drop_while is_trim (a ++ [b]) = a' ++ [b]).
+      { induction a as [|y a IH]; intro b; cbn [app drop_while].
+        - destruct (is_trim b); [now left | right; now exists []].
+        - destruct (is_trim y); [apply IH | right; now exists (y :: a)]. }
+      destruct (D (rev m') x) as [E|[a' E]]; rewrite E in H; [discriminate|].
+      rewrite rev_app_distr in H. cbn [rev app] in H. now inversion H. }
+    destruct m as [|x m'] eqn:Em; [discriminate|].
+    rewrite <- (Hm _ H x m' eq_refl). unfold m in Em. eapply drop_while_head; exact Em.
+  - rewrite rev_involutive in H. eapply drop_while_head; exact H.
+Qed.
+
+(* ------------------------------------------------------------------ *)
+(* receiver discipline: every receiver except undefined (and null in substr) is
+   converted as ES5 9.10 + 9.8 say *)
+
+Lemma digits_ascii : forall fuel n acc, 0 <= n -> ascii acc -> ascii (digits fuel n acc).
+Proof.
+  induction fuel as [|f IH]; intros n acc Hn Ha; [exact Ha|].
+  cbn [digits]. destruct (Z.ltb_spec n 10).
+  - constructor; [lia|exact Ha].
+  - apply IH; [apply Z.div_pos; lia|]. constructor; [|exact Ha].
+    pose proof (Z.mod_pos_bound n 10 ltac:(lia)). lia.
+Qed.
+
+Lemma int_text_ascii : forall n, ascii (int_text n).
+Proof.
+  intro n. unfold int_text. destruct (Z.ltb_spec n 0).
+  - constructor; [lia|]. apply digits_ascii; [lia|constructor].
+  - apply digits_ascii; [lia|constructor].
+Qed.
+
+Theorem generic_receiver : forall m r, r <> RUndef -> (m = MSubstr -> r <> RNull) ->
+  this_gostring m r = option_map dec16 (this_string r).
+Proof.
+  intros m r NU NN. destruct r; cbn [this_gostring this_string option_map]; try reflexivity.
+  - now rewrite (dec16_bmp _ (bmp_of_ascii _ (int_text_ascii n))).
+  - destruct b; reflexivity.
+  - congruence.
+  - destruct m; try reflexivity. exfalso. now apply NN.
+Qed.
+
+(* ------------------------------------------------------------------ *)
+(* localeCompare: otto's order on Go strings is a total order, 0 exactly on equal strings *)
+
+Lemma cmp_refl : forall a, cmp_list a a = 0.
+Proof. induction a; [reflexivity|]. cbn [cmp_list]. now rewrite Z.ltb_irrefl. Qed.
+
+Lemma cmp_antisym : forall a b, cmp_list b a = - cmp_list a b.
+Proof.
+  induction a as [|x a IH]; destruct b as [|y b]; try reflexivity.
+  cbn [cmp_list]. destruct (Z.ltb_spec x y); destruct (Z.ltb_spec y x); try lia; try reflexivity. apply IH.
+Qed.
+
+Lemma cmp_eq : forall a b, cmp_list a b = 0 -> a = b.
+Proof.
+  induction a as [|x a IH]; destruct b as [|y b]; intro H; try reflexivity; try discriminate.
+  cbn [cmp_list] in H. destruct (Z.ltb_spec x y); [discriminate|]. destruct (Z.ltb_spec y x); [discriminate|].
+  f_equal; [lia|now apply IH].
+Qed.
+
+Lemma cmp_range : forall a b, cmp_list a b = -1 \/ cmp_list a b = 0 \/ cmp_list a b = 1.
+Proof.
+  induction a as [|x a IH]; destruct b as [|y b]; cbn [cmp_list]; auto.
+  destruct (x <? y); auto. destruct (y <? x); auto.
+Qed.
+
+Lemma cmp_trans : forall a b c, cmp_list a b = -1 -> cmp_list b c = -1 -> cmp_list a c = -1.
+Proof.
+  induction a as [|x a IH]; destruct b as [|y b]; destruct c as [|z c]; cbn [cmp_list]; intros H1 H2;
+    try reflexivity; try discriminate.
+  destruct (Z.ltb_spec x y); destruct (Z.ltb_spec y z); destruct (Z.ltb_spec x z); try reflexivity; try lia;
+    destruct (Z.ltb_spec y x); destruct (Z.ltb_spec z y); destruct (Z.ltb_spec z x); try discriminate; try lia.
+  eapply IH; eassumption.
+Qed.
+
+(* ------------------------------------------------------------------ *)
+(* UTF-16 round trip: what Value.string() decodes from the units that utf16.Encode
+   produced is the Go string again, for every sequence of Unicode scalar values *)
+
+Ltac Zify.zify_post_hook ::= Z.div_mod_to_equations.
+
+Lemma range_b : forall lo hi x, lo <= x <= hi -> (lo <=? x) && (x <=? hi) = true.
+Proof. intros. destruct (Z.leb_spec lo x); destruct (Z.leb_spec x hi); try reflexivity; lia. Qed.
+Lemma range_nb : forall lo hi x, x < lo \/ hi < x -> (lo <=? x) && (x <=? hi) = false.
+Proof. intros. destruct (Z.leb_spec lo x); destruct (Z.leb_spec x hi); try reflexivity; lia. Qed.
+
+Lemma valid_rune_spec : forall r, valid_rune r = true -> 0 <= r <= 0x10FFFF /\ (r < 0xD800 \/ 0xDFFF < r).
+Proof.
+  intros r H. unfold valid_rune, is_sur in H.
+  destruct (Z.leb_spec 0 r); destruct (Z.leb_spec r 0x10FFFF); cbn [andb] in H; try discriminate.
+  destruct (Z.leb_spec 0xD800 r); destruct (Z.leb_spec r 0xDFFF); cbn [andb negb] in H; try discriminate; lia.
+Qed.
+
+Lemma dec16_enc16_1 : forall r rest, valid_rune r = true -> dec16 (enc16_1 r ++ rest) = r :: dec16 rest.
+Proof.
+  intros r rest V. unfold enc16_1. rewrite V. apply valid_rune_spec in V as [R S].
+  destruct (Z.ltb_spec r 0x10000).
+  - cbn [app dec16]. unfold is_hi, is_lo. rewrite !range_nb by lia. reflexivity.
+  - set (q := (r - 0x10000) / 0x400). set (m := (r - 0x10000) mod 0x400).
+    assert (0 <= q < 0x400 /\ 0 <= m < 0x400 /\ r = 0x10000 + q * 0x400 + m) as (Hq & Hm & E) by (unfold q, m; lia).
+    cbn [app dec16]. unfold is_hi, is_lo. rewrite !range_b by lia.
+    unfold pair16. f_equal. lia.
+Qed.
+
+Theorem dec16_enc16 : forall s, scalars s -> dec16 (enc16 s) = s.
+Proof.
+  induction 1 as [|r s V _ IH]; [reflexivity|].
+  unfold enc16 in *. cbn [flat_map]. rewrite dec16_enc16_1 by exact V. now rewrite IH.
+Qed.
+
+(* ------------------------------------------------------------------ *)
+(* UTF-8 round trip: []rune(string(runes)) = runes for every sequence of scalar values;
+   in particular otto's utf16Length of a Go string is the number of its UTF-16 units *)
+
+Lemma dec8_step1 : forall b0 rest, b0 < 0x80 -> dec8 (b0 :: rest) = b0 :: dec8 rest.
+Proof. intros. cbn [dec8]. destruct (Z.ltb_spec b0 0x80); [reflexivity|lia]. Qed.
+Lemma dec8_step2 : forall b0 b1 rest, 0x80 <= b0 -> ok2 b0 b1 = true ->
+  dec8 (b0 :: b1 :: rest) = r2 b0 b1 :: dec8 rest.
+Proof. intros b0 b1 rest H H2. cbn [dec8]. destruct (Z.ltb_spec b0 0x80); [lia|]. now rewrite H2. Qed.
+Lemma dec8_step3 : forall b0 b1 b2 rest, 0x80 <= b0 -> ok2 b0 b1 = false -> ok3 b0 b1 b2 = true ->
+  dec8 (b0 :: b1 :: b2 :: rest) = r3 b0 b1 b2 :: dec8 rest.
+Proof. intros b0 b1 b2 rest H H2 H3. cbn [dec8]. destruct (Z.ltb_spec b0 0x80); [lia|]. now rewrite H2, H3. Qed.
+Lemma dec8_step4 : forall b0 b1 b2 b3 rest, 0x80 <= b0 -> ok2 b0 b1 = false -> ok3 b0 b1 b2 = false ->
+  ok4 b0 b1 b2 b3 = true -> dec8 (b0 :: b1 :: b2 :: b3 :: rest) = r4 b0 b1 b2 b3 :: dec8 rest.
+Proof.
+  intros b0 b1 b2 b3 rest H H2 H3 H4. cbn [dec8]. destruct (Z.ltb_spec b0 0x80); [lia|]. now rewrite H2, H3, H4.
+Qed.
+
+Lemma is_cont_b : forall x, 0 <= x < 64 -> is_cont (0x80 + x) = true.
+Proof. intros. unfold is_cont. apply range_b. lia. Qed.
+
+Lemma dec8_enc8_1 : forall r rest, valid_rune r = true -> dec8 (enc8_1 r ++ rest) = r :: dec8 rest.
+Proof.
+  intros r rest V. unfold enc8_1. rewrite V. apply valid_rune_spec in V as [R S].
+  destruct (Z.ltb_spec r 0x80); [cbn [app]; apply dec8_step1; lia|].
+  destruct (Z.ltb_spec r 0x800).
+  { (* two bytes *)
+    set (a := r / 64). set (c := r mod 64).
+    assert (2 <= a < 32 /\ 0 <= c < 64 /\ r = a * 64 + c) as (Ha & Hc & E) by (unfold a, c; lia).
+    cbn [app]. rewrite dec8_step2; [|lia|].
+    - f_equal. unfold r2. lia.
+    - unfold ok2. rewrite range_b by lia. now rewrite is_cont_b. }
+  destruct (Z.ltb_spec r 0x10000).
+  { (* three bytes *)
+    set (a := r / 4096). set (b := (r / 64) mod 64). set (c := r mod 64).
+    assert (0 <= a < 16 /\ 0 <= b < 64 /\ 0 <= c < 64 /\ r = a * 4096 + b * 64 + c) as (Ha & Hb & Hc & E)
+      by (unfold a, b, c; lia).
+    cbn [app]. rewrite dec8_step3; [| lia | |].
+    - f_equal. unfold r3. lia.
+    - unfold ok2. rewrite (range_nb 0xC2 0xDF) by lia. reflexivity.
+    - unfold ok3. rewrite (range_b 0xE0 0xEF) by lia. rewrite (is_cont_b c) by lia. cbn [andb].
+      destruct (Z.eqb_spec (0xE0 + a) 0xE0); [apply range_b; lia|].
+      destruct (Z.eqb_spec (0xE0 + a) 0xED); [apply range_b; lia|].
+      apply is_cont_b; lia. }
+  (* four bytes *)
+  set (a := r / 262144). set (b := (r / 4096) mod 64). set (c := (r / 64) mod 64). set (d := r mod 64).
+  assert (0 <= a <= 4 /\ 0 <= b < 64 /\ 0 <= c < 64 /\ 0 <= d < 64 /\ r = a * 262144 + b * 4096 + c * 64 + d)
+    as (Ha & Hb & Hc & Hd & E) by (unfold a, b, c, d; lia).
+  cbn [app]. rewrite dec8_step4; [| lia | | |].
+  - f_equal. unfold r4. lia.
+  - unfold ok2. rewrite (range_nb 0xC2 0xDF) by lia. reflexivity.
+  - unfold ok3. rewrite (range_nb 0xE0 0xEF) by lia. reflexivity.
+  - unfold ok4. rewrite (range_b 0xF0 0xF4) by lia. rewrite (is_cont_b c), (is_cont_b d) by lia. cbn [andb].
+    destruct (Z.eqb_spec (0xF0 + a) 0xF0); [apply range_b; lia|].
+    destruct (Z.eqb_spec (0xF0 + a) 0xF4); [apply range_b; lia|].
+    apply is_cont_b; lia.
+Qed.
+
+Theorem dec8_enc8 : forall s, scalars s -> dec8 (enc8 s) = s.
+Proof.
+  induction 1 as [|r s V _ IH]; [reflexivity|].
+  unfold enc8 in *. cbn [flat_map]. rewrite dec8_enc8_1 by exact V. now rewrite IH.
+Qed.
+
+Theorem utf16Length_go_string : forall s, scalars s -> utf16Length (enc8 s) = zlen (enc16 s).
+Proof. intros s H. unfold utf16Length. now rewrite dec8_enc8. Qed.
